@@ -7,7 +7,10 @@ Decided clause: frame discipline of the transform into the source frame and back
   F2  get_src_dict hands level 1 each source's own global position path, its own local->global orientation path and the
       global observers; no part of a pose array is overwritten with a constant
   F2b (= C07/W4) position and orientation paths are tiled by the same pipeline, so each row pairs a pose's position with its own orientation
-Not decided: the remaining row alignment of tiled poses with sources/path indices (index arithmetic); covariance of the closed forms.
+  F2c (LAYOUT, lay_rules.py) row alignment: positions, orientations, observers and per-source parameters handed to level 1 all
+      enumerate (group source, path index, pixel) in this order; level 1 pairs them row by row; level 2 re-splits the result in
+      the same order and stacks the sensor rotations like the block they are applied to
+Not decided: covariance of the closed forms themselves (numerical).
 """
 import frame_rules
 
@@ -17,9 +20,11 @@ EXPLANATION = ("coordinate-frame typing (points/vectors/rotations with from->to 
 
 
 def run(repo, res, tier):
-    res.rules = ["F1 level-1 transform in/out", "F2 level-1 inputs built from the sources' own poses; no literal overwrite of poses"]
+    res.rules = ["F1 level-1 transform in/out", "F2 level-1 inputs built from the sources' own poses; no literal overwrite of poses", "F2b sibling tiling", "F2c axis-layout typing (row alignment)"]
     extra = frame_rules.c03(repo, res)
     from props import c07
+    import lay_rules
+    lay_rules.run(res, "F2c")
     c07.w4(repo, res)     # F2b: position and orientation rows are tiled identically (row alignment of the two pose paths)
     res.assumptions += ["declared types: X._position : Pt[G], X._orientation : Rot[X->G]; field function: Vec[S] -> Vec[S]",
                         "SciPy Rotation semantics: apply(v, inverse=True) == inv().apply(v); (p*q).apply(v) == p.apply(q.apply(v))"]
